@@ -74,7 +74,8 @@ def main():
             r = run_direct_list(scn, scheme, job['workdir'], job.get('plan'))
         else:
             r = build.run_scenario(scn, job['workdir'], scheme=scheme,
-                                   name_tables=job.get('name_tables', False), plan=job.get('plan'))
+                                   name_tables=job.get('name_tables', False), plan=job.get('plan'),
+                                   damage=job.get('damage'))
         out = {'ok': r['ok'], 'error': r['error'], 'scratch_left': r['scratch_left'], 'dir': r['dir'],
                'traces': {str(k): v for k, v in r['traces'].items()},
                'stdio_tail': (r.get('stdout') or '')[-3000:],
